@@ -589,10 +589,16 @@ where
         // Rearrange data based on sorted keys
         let original_data: Vec<(K, V)> = data.iter().cloned().collect();
 
+        // Equal keys must each take a *different* source pair: always picking the first
+        // occurrence would duplicate its value and lose the others
+        let mut placed = vec![false; indices.len()];
         for (new_pos, &key) in keys.iter().enumerate() {
-            // Find original position of this key
-            // SAFETY: Every key in sorted keys array came from indices, so position() always finds it
-            let old_pos = indices.iter().position(|(k, _)| *k == key).unwrap();
+            // Find the first not-yet-placed pair with this key (keeps equal keys in input order)
+            // SAFETY: Every key in sorted keys array came from indices, as often as it occurs there
+            let old_pos = (0..indices.len())
+                .find(|&i| !placed[i] && indices[i].0 == key)
+                .unwrap();
+            placed[old_pos] = true;
             data[new_pos] = original_data[indices[old_pos].1].clone();
         }
 
@@ -1069,6 +1075,23 @@ impl<T: RadixSortable> AdvancedRadixSort<T> {
             SortingStrategy::Adaptive => {
                 // This shouldn't happen as select_strategy should return a concrete strategy
                 return Err(ZiporaError::invalid_data("Invalid adaptive strategy selection"));
+            }
+        }
+        // The insertion / Tim / LSD paths order by `extract_key()`, which for strings is only an
+        // 8-byte zero-padded prefix: elements whose keys tie ("a" and "a\0", or strings that
+        // differ after byte 8) are still in input order. Order every run of equal keys by `Ord`.
+        if !matches!(strategy, SortingStrategy::MsdRadix) {
+            let mut start = 0;
+            while start < data.len() {
+                let key = data[start].extract_key();
+                let mut end = start + 1;
+                while end < data.len() && data[end].extract_key() == key {
+                    end += 1;
+                }
+                if end - start > 1 {
+                    data[start..end].sort_unstable();
+                }
+                start = end;
             }
         }
         self.stats.phase_times.sorting_time_us = sorting_start.elapsed().as_micros() as u64;
